@@ -69,3 +69,6 @@ SPEC = {'id': 'C11',
              'inputs/parameters'],
  'assumptions': ["net/url.Parse's components are what the HTTP client will use; idna.ToASCII returns a dot-free label "
                  'for a dot-free input (IDN domains only)']}
+
+SPEC['rule'] += (' Added after the seeded-change rounds: ' +
+    'Decodes kept alive and run concurrently (results depend on the input alone); multi-label IDN domains around the 63-byte label limit; the Host header is compared after the AMP-cache rewrite; the size bound is applied to the decoded body, not to the encoded path.')
